@@ -251,46 +251,46 @@ def run_find(struct, pattern, atol, hints=(None, None, None), seed=None):
 
 
 def find_op(case, atol, hints, hook):
-    """the model op for one search, with the oracle (quaternions per candidate) and choices taken from the hook"""
-    n = len(case["elems"])
-    oracle = [[[core.q(x) for x in qq] for qq in g["quats"]] for g in hook.groups]
-    choose = []
-    chosen = hook.find["chosen"] if hook.find else []
-    ci = 0
-    for g in hook.groups:
-        good = list(g["good"])
-        if not good:
-            choose.append(0)
-            continue
-        # which good candidate did the code take for this group?
-        pick = 0
-        if ci < len(chosen):
-            for k, gi in enumerate(good):
-                if g["tuples"][gi] == chosen[ci]:
-                    pick = k
-                    break
-        choose.append(pick)
-        ci += 1
+    """the model op for one search; the oracle (quaternion of every candidate tuple) and the code's picks are taken
+    from the hook and keyed BY TUPLE, not by enumeration position"""
+    oracle = [{"t": [int(i) for i in t], "q": [core.q(x) for x in qq]} for g in hook.groups for t, qq in zip(g["tuples"], g["quats"])]
+    chosen = [[int(i) for i in t] for t in (hook.find["chosen"] if hook.find else [])]
     axis = [None, None, None]
     if hook.find:
         axis = [None if a is None else int(a) for a in hook.find["axis"]]
     return {"op": "find", "elems": case["elems"], "pos": [[core.q(x) for x in p] for p in case["pos"]],
             "cell": [[core.q(x) for x in row] for row in case["cell"]],
             "pelems": case["pattern"]["elems"], "ppos": [[core.q(x) for x in p] for p in case["pattern"]["pos"]],
-            "atol": core.q(atol), "hints": list(hints), "axis": axis, "oracle": oracle, "choose": choose}
+            "atol": core.q(atol), "hints": list(hints), "axis": axis, "oracle": oracle, "chosen": chosen}
+
+
+def _canon_groups(groups, good_of):
+    """order-free form of the candidate groups: sorted by their first sorted tuple; tuples and good tuples as sorted lists.
+    (The order in which candidates are enumerated follows a sort of float coordinates that can tie in the last bit between
+    an atom and an image computed with one rounding more; no property constrains that order.)"""
+    out = []
+    for g in groups:
+        ts = sorted([int(i) for i in t] for t in g["tuples"])
+        out.append({"tuples": ts, "good": sorted(good_of(g))})
+    return sorted(out, key=lambda g: g["tuples"])
+
+
+def _canon_matches(ms):
+    return sorted(ms, key=lambda m: m["idx"] + [str(v) for p in m["pos"] for v in p]) if ms is not None else None
 
 
 def impl_view(res):
-    """what the code did, in the shape of the model's answer"""
+    """what the code did, in the shape of the model's answer (order-free)"""
     hook = res["hook"]
     return {"near": hook.find["near_indices"] if hook.find else None,
-            "groups": [{"tuples": g["tuples"], "good": [int(i) for i in g["good"]]} for g in hook.groups],
-            "matches": [{"idx": i, "pos": [[core.q(x) for x in p] for p in m]} for i, m in zip(res["ok"]["idx"], res["ok"]["pos"])] if "ok" in res else None}
+            "groups": _canon_groups(hook.groups, lambda g: [[int(i) for i in g["tuples"][k]] for k in g["good"]]),
+            "matches": _canon_matches([{"idx": i, "pos": [[core.q(x) for x in p] for p in m]} for i, m in zip(res["ok"]["idx"], res["ok"]["pos"])]) if "ok" in res else None}
 
 
 def model_view(m):
-    return {"near": m.get("near"), "groups": [{"tuples": g["tuples"], "good": g["good"]} for g in m.get("groups", [])],
-            "matches": m.get("matches")}
+    return {"near": m.get("near"),
+            "groups": _canon_groups(m.get("groups", []), lambda g: g.get("good_tuples", [])),
+            "matches": _canon_matches(m.get("matches"))}
 
 
 def stable_under_atol(lean, op, rel=1e-6):
